@@ -99,6 +99,8 @@ instance (r : HRange) : Decidable r.Good := by unfold HRange.Good; exact inferIn
 /-- every record good and the counter equals the number of denoted hosts -/
 def HL.Good (h : HL) : Prop := (∀ r ∈ h.ranges.toList, r.Good) ∧ h.nhosts = h.hosts.length
 
+instance (h : HL) : Decidable h.Good := by unfold HL.Good; exact inferInstance
+
 /-! ### small string helpers shared by the parser files -/
 /-- `strchr(s, c)` + cut: text before the first `c` and, if `c` occurs, the text after it -/
 def cutAt (c : Char) : Str → Str × Option Str
